@@ -15,7 +15,7 @@ from ..core import MachineryError
 from ..fx import make_xknx
 from ..vloop import virtual_world
 
-OPS = ("start", "remove", "stop", "lost", "conn", "t1", "t5")
+OPS = ("start", "remove", "stop", "lost", "conn", "t1", "t5", "connecting")      # connecting: the bus is not connected either (CONNECTING, also straight from CONNECTED)
 OPTS = [dict(restart_after_reconnect=r, wait_before_start=w, wait_for_connection=c, repeat_after=p)
         for r, w, c, p in itertools.product([False, True], [0, 1], [False, True], [None, 0, 3])]
 
@@ -53,6 +53,8 @@ def run_hist(opts, ops, seed=0):
                     cm.connection_state_changed(XknxConnectionState.DISCONNECTED)
                 elif op == "conn":
                     cm.connection_state_changed(XknxConnectionState.CONNECTED)
+                elif op == "connecting":
+                    cm.connection_state_changed(XknxConnectionState.CONNECTING)
                 elif op == "t1":
                     await asyncio.sleep(1)
                 elif op == "t5":
@@ -66,7 +68,7 @@ def run_hist(opts, ops, seed=0):
                 await asyncio.sleep(0)
                 await asyncio.sleep(0)
                 live = [x for x in asyncio.all_tasks() if x.get_name() == "verif-task" and not x.done()]
-                trace.append({"op": op if op not in ("t1", "t5") else "tick", "live": len(live), "new": new,
+                trace.append({"op": "lost" if op == "connecting" else op if op not in ("t1", "t5") else "tick", "live": len(live), "new": new,
                               "running": running["n"]})
             reg.stop()
             await asyncio.sleep(0)
@@ -89,7 +91,7 @@ def histories(ck):
             hs.append(ops)
     for _ in range(100 if ck.tier == "quick" else 2000):
         n = rnd.randrange(6, 14)
-        hs.append(tuple(rnd.choices(OPS[:2] + OPS[3:], weights=[3, 1, 3, 3, 2, 2], k=n)))
+        hs.append(tuple(rnd.choices(OPS[:2] + OPS[3:], weights=[3, 1, 3, 3, 2, 2, 2], k=n)))
     return hs
 
 
